@@ -745,3 +745,50 @@ def rule_neuf_annotate(ctx, rep):
         rep.check(got == marks and not others, R, ent, 'marks as expected', 'in %r "neuf" is marked %s, expected %s%s' % (
             toks, got, marks, ('; other tokens marked: %s' % others) if others else ''))
     rep.floor(R, n, 12, 'contexts evaluated')
+
+
+# ---------------------------------------------------------------------------------------
+def rule_group_inert(ctx, rep, langs=ALL_LANGS):
+    R = 'A8d-GROUP-INERT'
+    rep.rule(R, 'grouped tokens (hyphen groups en/fr, compound words de/nl/it) evaluated with the crate\'s own digit builder: when apply reports an '
+                'error — including Incomplete for a group that ends on the conjunction — the builder it was given is exactly as before (digits, '
+                'zeros, marker, flags, frozen); an accepted group changes it once')
+    from ..spellers import spellings
+    n = 0
+    for lang in langs:
+        lx = lexicon(lang)
+        cj = lx.get('conjunction') or ''
+        ev = real_evaluator(ctx, lang)
+        toks = []
+        if lx.get('group_syntax') == '-':
+            for a in (20, 21, 60, 100, 120):
+                head = '-'.join(spellings(lang, a)[0]).replace(' ', '-')
+                toks += [head, head + '-' + cj, head + '-xyzzy', cj + '-' + head, head + '-' + head]
+        elif lang in ('de', 'nl', 'it'):
+            for a in (21, 32, 100, 120, 2005):
+                w = spellings(lang, a)[0][0]
+                toks += [w, w + cj, w + 'xyzzy', cj + w, w + w]
+        else:
+            continue
+        for tok in dict.fromkeys(toks):
+            for d, lz in ((b'', 0), (b'', 2), (b'1000', 0), (b'5', 0)):
+                st = state(d, lz)
+                snap = (st.digits, st.leading_zeroes, st.marker, st.frozen)
+                ent = '%s|%s|%s' % (lang, tok, d.decode() or ('0' * lz) or 'fresh')
+                try:
+                    r = ev.call_fn(interp_method(lang, 'apply'), [ev.self_value, tok, st])
+                except Unanalysable as e:
+                    rep.anchor(R, ent, 'apply("%s") left the analysable fragment: %s' % (tok, e.what))
+                    continue
+                n += 1
+                after = (st.digits, st.leading_zeroes, st.marker, st.frozen)
+                flags_after = st.flags.bits if hasattr(st.flags, 'bits') else st.flags
+                if not r.ok:
+                    rep.check(after == snap, R, ent, 'rejected, builder untouched',
+                              'apply("%s") on builder %r returns Err(%s) but leaves it as digits=%r zeros=%d marker=%r frozen=%s: a refused group leaves a trace' % (
+                                  tok, d.decode(), r.payload, after[0].decode(), after[1], after[2], after[3]))
+                else:
+                    ops = [o for o in st.ops if o[0] in ('put', 'fput', 'push', 'shift', 'put_digit_at')]
+                    rep.check(len(ops) == 1, R, ent, 'accepted with one operation on the caller\'s builder',
+                              'apply("%s") is accepted but issues %s on the caller\'s builder' % (tok, ops))
+    rep.floor(R, n, 300, 'group evaluations')
